@@ -57,8 +57,11 @@ class WebApp:
 
     @inject(Settings)
     def queue_script(self, script_control, settings):
+        # The file name was escaped for display; the file itself has the
+        # original name.
         fname = join(
-            settings.get_value("script_path", "."), script_control.file_name)
+            settings.get_value("script_path", "."),
+            html.unescape(script_control.file_name))
         job = ScriptJob.from_file(fname)
         if script_control.run_background:
             self._jobs.spawn_job(job, script_control.path)
